@@ -96,6 +96,11 @@ PENDING_UNUSED = "check not built yet in this session (design in DESIGN.md secti
 ALL = ["C%02d" % i for i in range(1, 21)]
 
 
+POOL_PART = " Through the pool: the wrapper methods of this family are also called on (1,2) pools (both error-policy values, varied name lists / N-M splits / layerings, rule sets with an always-failing and a stop-tag-setting rule at every position) and the map and error flag they hand back are compared inside Coq with spec_outcome of the entry point on those arguments — T3 checks which engine method a wrapper calls, this that it passes its arguments on."
+for _k in ("C04", "C05", "C12", "C13", "C14"):
+    CLAIMS[_k]["text"] += POOL_PART
+
+
 def main():
     checks = []
     for pid in ALL:
